@@ -12,7 +12,8 @@ import sys
 
 from .common import notrace
 
-WARNING_SELECTIONS = [None, ["all"], ["no-implicit-operand", "no-excess-hash"], ["all", "no-all"], ["legacy-deferred", "no-default"]]
+WARNING_SELECTIONS = [None, ["all"], ["no-implicit-operand", "no-excess-hash"], ["all", "no-all"], ["legacy-deferred", "no-default"],
+                      ["unexpected-newline"], ["all", "no-implicit-accumulator", "no-meta-typo"]]
 FORMATS = ["graphical", "bare"]
 
 
